@@ -40,7 +40,7 @@ func parse(f kit.Failure) (kind, id string, flags map[string]bool, ok bool) {
 }
 
 // walk replays the history shape (no library, no model state beyond these flags) and reports, for every op,
-// whether the current document object had been saved/opened before it and whether a fresh-process open of a
+// whether the current document object had been saved/opened before it and whether an open (reopen op or foreign start) of a
 // package with lists / notes precedes it.
 type at struct {
 	saved               bool
@@ -67,13 +67,12 @@ func walk(c Case, f func(op Op, s at) bool) bool {
 		case op.K == "reopen":
 			s.saved = true
 			s.opened = true
-			if len(op.B) > 1 && op.B[1] {
-				if lists > 0 {
-					s.freshLists = true
-				}
-				if notes > 0 {
-					s.freshNt = true
-				}
+			// the registries are per document: every opened document starts with empty ones
+			if lists > 0 {
+				s.freshLists = true
+			}
+			if notes > 0 {
+				s.freshNt = true
 			}
 		case op.K == "md":
 			s = at{}
